@@ -610,11 +610,15 @@ def checkNizk (O : Oracles) (K : PubKey) (fuel : Nat) : Except Err Bool :=
         | .ok none => .ok false
         | .ok (some _) => .ok true
 
+/-- `mpz_jacobi(y, m)` (GMP computes the Kronecker symbol) for odd `m` of either sign -/
+def kronecker (y m : Int) : Int :=
+  if m < 0 ∧ y < 0 then - jacobi y m.natAbs else jacobi y m.natAbs
+
 /-- `TMCG_PublicKey::check()`; `isPrime` answers `mpz_probab_prime_p(m, 500)`.
-    (For even or non-positive `m` the first two tests both refuse or the second does.) -/
+    (For even `m` the first test or the second refuses: the order is not observable.) -/
 def check (O : Oracles) (isPrime : Int → Bool) (K : PubKey) (fuel : Nat) : Except Err Bool :=
-  if K.m ≤ 0 ∨ K.m % 2 = 0 then .ok false
-  else if jacobi K.y K.m.natAbs ≠ 1 then .ok false
+  if K.m % 2 = 0 then .ok false
+  else if kronecker K.y K.m ≠ 1 then .ok false
   else if isPrime K.m then .ok false
   else if ¬ verify O K.m K.sig (bytesOf (selfData K)) K.sig then .ok false
   else if fermatReject K.m then .ok false
